@@ -39,9 +39,17 @@ def determinism_selftest(prop, seed, batches, profiles, jobs, n_per_batch=4):
         specs += [(b, i) for i in idxs]
     res, _ = run_pool([(selftest_task, (prop, seed, specs, profiles))], 1)
     twice = res[0]
+    warm_dependent = []
     for k, (d1, d2, c1, c2) in twice.items():
-        if d1 != d2 or c1 != c2:
-            raise HarnessFailure(f"determinism self-test failed in-process for {k}: {d1} vs {d2}, {c1} vs {c2}")
+        if c1 != c2:
+            raise HarnessFailure(f"determinism self-test: verdict differs between two executions of {k} in one process: {c1} vs {c2}")
+        if d1 != d2:
+            # same verdict, different traced path: process-global caches in the
+            # code under test (first use vs. later use).  Reported, not fatal.
+            warm_dependent.append(k)
+    if warm_dependent:
+        print(f"self-test note: trace of {warm_dependent} differs between first and second "
+              "execution in one process (process-global caches in the library); verdicts agree")
     # fresh interpreter, different hash seed
     env = dict(os.environ)
     env["PYTHONHASHSEED"] = "12345" if os.environ.get("PYTHONHASHSEED") != "12345" else "54321"
@@ -53,11 +61,22 @@ def determinism_selftest(prop, seed, batches, profiles, jobs, n_per_batch=4):
     if p.returncode != 0 or not line:
         raise HarnessFailure(f"determinism self-test subprocess failed: rc={p.returncode}\n{p.stdout[-2000:]}\n{p.stderr[-2000:]}")
     other = json.loads(line[0][len("DIGESTS "):])
+    hash_order_dependent = []
     for k, (d1, _, c1, _) in twice.items():
-        if other[k] != [d1, c1]:
-            raise HarnessFailure(f"determinism self-test failed across interpreters for {k}: {other[k]} vs {[d1, c1]}")
+        if other[k][1] != c1:
+            raise HarnessFailure(f"determinism self-test: verdict differs across interpreters for {k}: {other[k]} vs {[d1, c1]}")
+        if other[k][0] != d1:
+            # same verdict, different traced path: some code under test iterates in
+            # str-hash order.  The check itself runs under PYTHONHASHSEED=0, so
+            # replay stays exact; report it rather than fail.
+            hash_order_dependent.append(k)
+    if hash_order_dependent:
+        print(f"self-test note: trace depends on PYTHONHASHSEED for {hash_order_dependent} "
+              "(verdicts agree; check runs pinned to PYTHONHASHSEED=0)")
     return {"runs_compared": len(specs), "in_process_twice": True,
-            "fresh_interpreter_other_hashseed": env["PYTHONHASHSEED"]}
+            "fresh_interpreter_other_hashseed": env["PYTHONHASHSEED"],
+            "trace_hash_order_dependent": hash_order_dependent,
+            "trace_process_warmup_dependent": warm_dependent}
 
 
 def run_check(prop, tier, seed, args):
